@@ -118,7 +118,8 @@ def run_apalache(wd, module, obligations, timeout=900):
             raise ToolError("apalache %s %s: obligation not discharged\n%s" % (module, ob, text[-1500:]))
         done.append(dict(ob, wall_s=round(dt, 1)))
     shutil.rmtree(os.path.join(wd, "apalache-out"), ignore_errors=True)
-    return {"module": module, "tool": "apalache-mc", "obligations": done, "wall_s": round(time.time() - t0, 1)}
+    return {"module": module, "tool": "apalache-mc", "obligations": done, "wall_s": round(time.time() - t0, 1),
+            "states": 0, "distinct": 0}
 
 
 def run_mc(wd, module, constants, invariants, workers=4, timeout=1500, props=None, constraint=None, specname="Spec"):
